@@ -69,6 +69,7 @@ def cases(rng, n, env_rate=0.3):
         {"cols": None, "rows": None, "scale": 3.0, "max_cols": "5", "max_rows": "2"}, {"cols": 2, "rows": None, "force": True},
         {"cols": None, "rows": 5, "max_cols": "3"}, {"cols": 7, "rows": None, "max_rows": "2"}, {"cols": None, "rows": None, "max_cols": "auto", "max_rows": "auto"},
     ]
+    base = base + [{"cols": None, "rows": None, "three": True}, {"cols": 2, "rows": None, "three": True, "force": True}]
     if env_rate > 0:
         # settings from the environment layer that bite for the two test images (23x11 and 9x30 px on 8x16 cells)
         base = [{"cols": None, "rows": None, "env": {"TUPIMAGE_MAX_COLS": "2"}}, {"cols": None, "rows": None, "two": True, "env": {"TUPIMAGE_MAX_ROWS": "1"}},
@@ -116,7 +117,7 @@ def cli_equivalence(ctx, cov, n, env_rate=0.3):
                 im.putdata([(rnd.randrange(256), rnd.randrange(256), rnd.randrange(256)) for _ in range(size[0] * size[1])])
                 im.save(os.path.join(d, name))
                 os.utime(os.path.join(d, name), ns=(1_700_000_000_000_000_000, 1_700_000_000_000_000_000))
-            images = ["a.png"] + (["b.png"] if c.get("two") else [])
+            images = ["a.png"] + (["b.png"] if c.get("two") else []) + (["b.png", "a.png"] if c.get("three") else [])
             env = _sandbox_env(d, c.get("env"))
             if who == "cli":
                 argv = ["display", "--out-display", "disp.out"]
@@ -229,14 +230,23 @@ def _reconf_child(work, cases):
     saved = idm.secrets
     out = []
     try:
-        for ci, (c1, c2) in enumerate(cases):
+        for ci, case_ in enumerate(cases):
+            c1, c2 = case_[0], case_[1]
+            how = case_[2] if len(case_) > 2 else "setattr"
             runs = {}
             for who in ("reconfigured", "fresh"):
                 db = os.path.join(work, f"rc-{os.getpid()}-{ci}-{who}.db")
                 cmd, disp = common.RecStream(), common.RecStream()
                 first = c1 if who == "reconfigured" else c2
-                t = tupimage.TupimageTerminal(out_command=cmd, out_display=disp, in_response=tty_in, id_database=db, terminal_id="rc", session_id="rc",
-                                              config="DEFAULT", redetect_terminal=False, **first)
+                if how == "config-object":
+                    # the configuration lives in an object of the caller's, handed to the constructor and changed later through
+                    # its own interface
+                    cfg_obj = tupimage.TupimageConfig()
+                    cfg_obj.override_from_dict(dict(first, redetect_terminal=False))
+                    t = tupimage.TupimageTerminal(out_command=cmd, out_display=disp, in_response=tty_in, id_database=db, terminal_id="rc", session_id="rc", config=cfg_obj)
+                else:
+                    t = tupimage.TupimageTerminal(out_command=cmd, out_display=disp, in_response=tty_in, id_database=db, terminal_id="rc", session_id="rc",
+                                                  config="DEFAULT", redetect_terminal=False, **first)
                 if who == "reconfigured":
                     for g in ("get_id_space", "get_subspace", "get_upload_method", "get_max_cols_and_rows", "get_cell_size", "get_supported_formats"):
                         try:
@@ -256,10 +266,13 @@ def _reconf_child(work, cases):
                         t.id_manager.del_id(w_.id)
                     except Exception:  # noqa
                         pass
-                    for k, v in c2.items():
-                        if not isinstance(getattr(type(t), k, None), property):
-                            raise RuntimeError(f"{k} is not an assignable property of TupimageTerminal")
-                        setattr(t, k, v)
+                    if how == "config-object":
+                        cfg_obj.override_from_dict({k: v for k, v in c2.items() if c1.get(k) != v})
+                    else:
+                        for k, v in c2.items():
+                            if not isinstance(getattr(type(t), k, None), property):
+                                raise RuntimeError(f"{k} is not an assignable property of TupimageTerminal")
+                            setattr(t, k, v)
                 idm.secrets = FixedSecrets(4242 + ci)
                 res = []
                 for req in range(4):
@@ -329,6 +342,51 @@ def reconfigure_equivalence(ctx, cov, n, must_change=None):
                 ctx.violations.append({"signature": {"class": "stale-configuration-after-reassignment", "changed": changed[:3], "differs": diffs},
                                        "what": f"a terminal whose settings {changed} were re-assigned on the live object (after every getter had been called once) serves request {i} differently "
                                                f"from a terminal constructed with the new settings: {', '.join(diffs)} differ (result {x['val']} vs {y['val']})", "case": case})
+                break
+
+
+CONFIG_OBJECT_VALUES = {
+    "reupload_max_uploads_ago": [1024, 1, 2],
+    "reupload_max_bytes_ago": [20 * 2**20, 50, 3000],
+    "force_upload": [False, True],
+    "fewer_diacritics": [False, True],
+    "max_cols": [3, 7, 40],
+    "max_rows": [2, 5, 20],
+    "scale": [0.5, 1.0, 2.0],
+    "id_subspace": ["10:12", "100:104", "0:256"],
+    "background": ["none", 3],
+}
+
+
+def config_object_equivalence(ctx, cov, n, must_change=None):
+    """Like reconfigure_equivalence, but the settings are changed through the caller's own TupimageConfig object (the one that
+    was handed to the constructor): options the terminal reads from its configuration at every request — the re-upload
+    thresholds among them — follow the change."""
+    rng = _random.Random(ctx.rng.randrange(2**40))
+    work = ctx.work
+    names = sorted(CONFIG_OBJECT_VALUES)
+    turn = list(must_change) if must_change else names
+    cases = []
+    for i in range(n):
+        c1 = {k: rng.choice(CONFIG_OBJECT_VALUES[k]) for k in names}
+        c2 = dict(c1)
+        for k in [turn[i % len(turn)]] + rng.sample(names, rng.randrange(0, 3)):
+            c2[k] = rng.choice([v for v in CONFIG_OBJECT_VALUES[k] if v != c1[k]])
+        cases.append((c1, c2, "config-object"))
+    r = common.in_pty(lambda: _reconf_child(work, cases), timeout=600)
+    if "ok" not in r:
+        ctx.corr_breaks.append({"what": "configuration-object runs failed in the pty sandbox", "error": {k: v for k, v in r.items() if k != "tty"}})
+        return
+    for (c1, c2, _), runs in zip(cases, r["ok"]):
+        changed = sorted(k for k in c2 if c2[k] != c1[k])
+        cov.add({"changed": changed, "after": c2, "via": "config object"}, klass="config-object/" + ",".join(changed[:2]))
+        for i, (x, y) in enumerate(zip(runs["reconfigured"], runs["fresh"])):
+            diffs = [k for k in ("val", "cmd", "disp") if x[k] != y[k]]
+            if diffs:
+                ctx.violations.append({"signature": {"class": "stale-configuration-after-reassignment", "changed": changed[:3], "differs": diffs, "via": "config object"},
+                                       "what": f"a terminal whose configuration object had {changed} changed after construction serves request {i} differently from a terminal constructed "
+                                               f"with the new settings: {', '.join(diffs)} differ (result {x['val']} vs {y['val']})",
+                                       "case": {"kind": "config-object", "before": c1, "after": c2}})
                 break
 
 
